@@ -217,6 +217,17 @@ Proof.
   - specialize (HN id Es). destruct (auth_scan rh id []) as [e|]; [|reflexivity]. lia.
 Qed.
 
+
+(** ** supersession: registering a different identity under a key revokes the previous one *)
+Lemma supersede_unauthorizes r c k id id' l t :
+  associations r k = Some id -> id' <> id ->
+  is_authorized (fst (register r c k id' l)) t id = false.
+Proof.
+  intros Ha Hne. unfold is_authorized, register.
+  destruct (sessions (fst (add_identity r k id' (c + l))) id) as [e|] eqn:E; [|reflexivity].
+  exfalso. apply add_sess_spec in E. destruct E as [[H _]|(_ & _ & H)]; congruence.
+Qed.
+
 (** * the server over an abstract endpoint *)
 Section Server.
 Variables (wg pkt payload : Type).
@@ -249,6 +260,15 @@ Proof.
   unfold Model_C09.handle_outgoing. destruct (tunnels s a) as [t|]; [|split; reflexivity].
   destruct (is_authorized _ _ _); [|split; reflexivity].
   destruct (wg_out (tunn t) pl) as [w' p]. split; reflexivity.
+Qed.
+
+Lemma step_register_reg s k id l :
+  reg (fst (step s (ERegister k id l))) = fst (register (reg s) (now s) k id l) /\
+  now (fst (step s (ERegister k id l))) = now s /\
+  forall x, ~ flows_for x (snd (step s (ERegister k id l))).
+Proof.
+  cbn [Model_C09.step]. destruct (register (reg s) (now s) k id l) as [r' wn].
+  refine (conj eq_refl (conj eq_refl _)). intros x [].
 Qed.
 
 Lemma step_reginv s e : RegInv (reg s) -> RegInv (reg (fst (step s e))).
